@@ -92,6 +92,11 @@ type FileInfo struct {
 
 	restorePointHeader    Header
 	restorePointRecordSet RecordSet
+
+	// Encoding and DelimiterPositions as they were specified when the file was referred to. Loading replaces
+	// AUTO and SPACES by what it detects in the contents of the file, so a reload has to start from these again.
+	specifiedEncoding           text.Encoding
+	specifiedDelimiterPositions fixedlen.DelimiterPositions
 }
 
 func NewFileInfo(
@@ -120,6 +125,8 @@ func NewFileInfo(
 		Delimiter: delimiter,
 		Encoding:  encoding,
 		ViewType:  ViewTypeFile,
+
+		specifiedEncoding: options.Encoding,
 	}, nil
 }
 
@@ -165,12 +172,22 @@ func (f *FileInfo) SetAllDefaultFileInfoAttributes(importOptions option.ImportOp
 
 func (f *FileInfo) SetDefaultFileInfoAttributes(importOptions option.ImportOptions, exportOptions option.ExportOptions) {
 	f.DelimiterPositions = importOptions.DelimiterPositions
+	f.specifiedDelimiterPositions = importOptions.DelimiterPositions
 	f.SingleLine = importOptions.SingleLine
 	f.JsonQuery = option.TrimSpace(importOptions.JsonQuery)
 	f.LineBreak = exportOptions.LineBreak
 	f.NoHeader = importOptions.NoHeader
 	f.EncloseAll = exportOptions.EncloseAll
 	f.JsonEscape = exportOptions.JsonEscape
+}
+
+// ResetDetectedAttributes puts back the attributes that loading has replaced by what it detected in the file.
+func (f *FileInfo) ResetDetectedAttributes() {
+	f.Encoding = f.specifiedEncoding
+	if f.Format == option.JSON || f.Format == option.JSONL {
+		f.Encoding = text.UTF8
+	}
+	f.DelimiterPositions = f.specifiedDelimiterPositions
 }
 
 func (f *FileInfo) IsUpdatable() bool {
